@@ -811,10 +811,11 @@ def chunks(lst, n):
     return [lst[i:i + n] for i in range(0, len(lst), n)]
 
 
-def emit_fortran(c, rng):
-    """Main-file text for an in-file-mesh, no-extra-precision case, sections in a random legal order."""
+def emit_fortran(c, rng, style=None, split_mesh=False):
+    """Main-file text for an in-file-mesh, no-extra-precision case, sections in a random legal order.  With
+    split_mesh the ELEME and CONNE sections go into a separate MESH text (returned as 4th item)."""
     T = R.t2data.t2data_format_specification
-    st = rng.choice(['E', '1P', 'e'])
+    st = style or rng.choice(['E', '1P', 'e'])
     aut = c['flavour'] == 'AUTOUGH2'
     S = {}
     nm = FW.block_name
@@ -991,10 +992,16 @@ def emit_fortran(c, rng):
         before('MULTI', 'DIFFU')
         before('ROCKS', 'INDOM')
     order = (['SIMUL'] if aut else []) + keys
+    mesh = None
+    if split_mesh and 'ELEME' in S:
+        mesh = '\n'.join(S['ELEME'] + S.get('CONNE', [])) + '\n'
+        order = [k for k in order if k not in ('ELEME', 'CONNE')]
     lines = [c['title']]
     for k in order:
         lines += S[k]
     lines.append(c['end_keyword'])
+    if split_mesh:
+        return '\n'.join(lines) + '\n', order, st, mesh
     return '\n'.join(lines) + '\n', order, st
 
 
@@ -1003,17 +1010,33 @@ def run_fortran(ctx, spec):
     for i in range(spec['n']):
         c = datacase.gen_case(ctx.rng, force={'mesh': 'infile', 'extra_precision': []})
         case = {'case': c, 'fortran': True, 'seed': ctx.seed, 'shard': ctx.shard, 'index': i}
+        # one case in four: D exponents (which only the Fortran reading functions understand), the mesh in a separate
+        # MESH file, and the documented way to read such files: read_function = fortran_read_function
+        fonly = i % 4 == 3 and bool(c['blocks']) and not (c['short'] or c['history_block'] or c['history_connection'] or c['history_generator'])
+        mesh = None
         try:
-            text, order, st = emit_fortran(c, ctx.rng)
+            if fonly:
+                text, order, st, mesh = emit_fortran(c, ctx.rng, style='D', split_mesh=True)
+            else:
+                text, order, st = emit_fortran(c, ctx.rng)
         except HarnessError:
             ctx.count('generated_value_did_not_fit')
             continue
         case['order'], case['style'] = order, st
         fn = os.path.join(ctx.tmp, 'c01_f.dat')
+        mfn = os.path.join(ctx.tmp, 'c01_f.MESH')
         with open(fn, 'w') as f:
             f.write(text)
-        with ctx.guard(case, where='read-fortran-style') as g:
-            dat = t2d.t2data(fn)
+        if mesh is not None:
+            with open(mfn, 'w') as f:
+                f.write(mesh)
+            case['mesh_file'] = True
+        with ctx.guard(case, where='read-fortran-style' + (':D-exponents+MESH' if fonly else '')) as g:
+            if fonly:
+                dat = t2d.t2data(fn, meshfilename=mfn if mesh is not None else '', read_function=R.fixed_format_file.fortran_read_function)
+                ctx.count('fortran_only_syntax_files')
+            else:
+                dat = t2d.t2data(fn)
         if g.raised is not None:
             continue
         ctx.evaluated()
@@ -1023,8 +1046,9 @@ def run_fortran(ctx, spec):
         d = diff(exp, model_of(dat))
         for sec, field, what in d[:1]:
             ctx.violation('fortran-style:%s:%s' % (sec, field), what + ' (Fortran-style file, sections %s, %s reals; +%d more)' % (' '.join(order), st, len(d) - 1), case)
-        if not d and list(dat._sections) != order:
-            ctx.violation('fortran-style:section-order', 'sections read %r, file has %r' % (dat._sections, order), case)
+        got_order = [k for k in dat._sections if not (mesh is not None and k in ('ELEME', 'CONNE'))]     # (an external mesh is listed last)
+        if not d and got_order != order:
+            ctx.violation('fortran-style:section-order', 'sections read %r, file has %r' % (got_order, order), case)
 
 
 def expected_fortran(c, st):
